@@ -109,7 +109,7 @@ func runTool(dir string, timeout time.Duration, name string, args ...string) (st
 
 func init() {
 	Register(&Check{ID: "C20", Level: "exploration",
-		Rule: "one case = one generated workflow whose files live in the working directory, run on the simulator under one tape-chosen schedule with a clock granularity of 1 ns / 1 ms / 15 ms (commands last at least one granule, so dependent tasks keep distinct start times while concurrently started ones share them), optionally as a resumed history (RunTo prefix, then Run; or killed at a tape-chosen crash state, temp directories removed, run again: ancestor records loaded from disk); the resulting tree is exported to a scratch directory and the REAL scipipe CLI built from /repo converts the audit file of a tape-chosen output with audit2html, audit2tex and audit2bash; one case in six instead converts a directly generated audit tree (1..12 records, fan-in <= 3, ancestors shared through several paths, source records with zero times, start times increasing / all equal / all zero / tied / decreasing towards the root; listings only). Oracle: each report lists every record ID of the lineage (read independently from the JSON) exactly once, in non-decreasing StartTime order, tasks with their command, parameters and tags; the generated script, run by the real bash in a directory holding only the source files (with a native twin of the workload command), re-creates the file byte-identically. Round 5: a task is identified by process + exact command (listed once whatever ids its records carry); records without OutFiles (older version) in resumed histories. distinct = event-log hash; non-trivial = lineage of >=3 records and >=1 non-default choice",
+		Rule: "one case = one generated workflow whose files live in the working directory, run on the simulator under one tape-chosen schedule with a clock granularity of 1 ns / 1 ms / 15 ms (commands last at least one granule, so dependent tasks keep distinct start times while concurrently started ones share them), optionally as a resumed history (RunTo prefix, then Run; or killed at a tape-chosen crash state, temp directories removed, run again: ancestor records loaded from disk); the resulting tree is exported to a scratch directory and the REAL scipipe CLI built from /repo converts the audit file of a tape-chosen output with audit2html, audit2tex and audit2bash; one case in six instead converts a directly generated audit tree (1..12 records, fan-in <= 3, ancestors shared through several paths, source records with zero times, start times increasing / all equal / all zero / tied / decreasing towards the root; listings only). Oracle: each report lists every record ID of the lineage (read independently from the JSON) exactly once, in non-decreasing StartTime order, tasks with their command, parameters and tags; the generated script, run by the real bash in a directory holding only the source files (with a native twin of the workload command), re-creates the file byte-identically. Round 5: a task is identified by process + exact command (listed once whatever ids its records carry); records without OutFiles (older version) in resumed histories. Round 7: per-cent signs on command lines; two programs within one clock tick always under a coarse clock. distinct = event-log hash; non-trivial = lineage of >=3 records and >=1 non-default choice",
 		Run: func(c *Case) Verdict {
 			cli, opBin := os.Getenv("VERIF_CLI"), os.Getenv("VERIF_OP")
 			if exe, err := os.Executable(); err == nil {
